@@ -6,6 +6,7 @@ import GMGDriver.OpsDrv2
 import GMGDriver.TransferDrv
 import GMGDriver.TraceDrv
 import GMGDriver.GridGenDrv
+import GMGDriver.SchedDrv
 
 def main (args : List String) : IO UInt32 := do
   match args with
@@ -20,6 +21,7 @@ def main (args : List String) : IO UInt32 := do
   | ["transfer"] => TransferDrv.main
   | ["trace"] => TraceDrv.main
   | ["gridgen"] => GridGenDrv.main
+  | ["sched", a, b] => SchedDrv.main a.toNat! b.toNat!
   | _ => do
     IO.eprintln "usage: gmgdriver <grid|tridiag|lu|...>  (reads the harness line protocol on stdin)"
     return 2
